@@ -64,7 +64,16 @@ def get_utility_and_feasibility_function(
     # Create the utility and feasability function
     # ==================================================================================
 
-    arg_names = {"vf_arr"} | get_union_of_arguments(relevant_functions) - {"_period"}
+    # all variables of the period's space are arguments, also those that none of the
+    # functions uses (e.g. a state that only enters a filter)
+    variable_info = model.variable_info
+    if is_last_period:
+        variable_info = variable_info.query("~is_auxiliary")
+    arg_names = (
+        {"vf_arr"}
+        | get_union_of_arguments(relevant_functions)
+        | set(variable_info.index)
+    ) - {"_period"}
     arg_names = [arg for arg in arg_names if "next_" not in arg]  # type: ignore[assignment]
 
     if is_last_period:
